@@ -28,6 +28,18 @@ OptValid == pc = "done" =>
                         /\ Canonical(input, ObInfo[input.ot], s)
                         /\ CostUn(input, SpInfo[input.st], s) = expect.min
 
+\* every valid solution (mapping x labelling) with its costs (C06)
+EvalExpected(inp, I, OI) ==
+  LET ot == inp.ot
+      F == FInfo(ot, OI, inp.syn)
+      labs == {lb \in [Nodes(ot) -> SUBSET F.used] : LabValidUn(inp, OI, lb)}
+      sols == {[m |-> m, lab |-> [u \in Nodes(ot) |-> SortedSeq(lb[u])]] : m \in ValidMappings(ot, I, inp.lm), lb \in labs}
+  IN {[sol |-> s, rcost |-> RecCost(ot, I, inp.c, s.m), lcost |-> LabCostUn(inp, I, s)] : s \in sols}
+GenEval == /\ pc = "gen" /\ pc' = "done"
+           /\ expect' = EvalExpected(input, SpInfo[input.st], ObInfo[input.ot])
+           /\ UNCHANGED <<input, k, table>>
+SpecEval == InitGen /\ [][GenEval]_vars
+
 InitSteps == /\ input \in Inputs /\ pc = "fill" /\ k = Len(input.ot) /\ table = <<>> /\ expect = <<>>
 FillNode == /\ pc = "fill" /\ k >= 1
             /\ table' = (k :> L2Row(input, SpInfo[input.st], FInfo(input.ot, ObInfo[input.ot], input.syn),
